@@ -499,9 +499,9 @@ package core
 //@ func (*LinearState).Rem
 //@   assert[C15.lin_rem_hook_first] at "s.rem(ctx, id, true)": s.remHook == nil || hookRem == id
 //@ func (*IndexedState).deleteDependencies
-//@   assert[C15.ix_cascade_hook_first] at "s.rem(ctx, sr.Id)": s.remHook == nil || hookRem == sr.Id
+//@   assert[C15.ix_cascade_hook_first] at "call:rem": s.remHook == nil || hookRem == callarg(1)
 //@ func (*LinearState).deleteDependencies
-//@   assert[C15.lin_cascade_hook_first] at "s.rem(ctx, sr.Id, false)": s.remHook == nil || hookRem == sr.Id
+//@   assert[C15.lin_cascade_hook_first] at "call:rem": s.remHook == nil || hookRem == callarg(1)
 //@ func (*IndexedState).expire
 //@   assert[C15.ix_expire_hook_first] at "s.rem(ctx, id)": s.remHook == nil || hookRem == id
 //@ func (*LinearState).expire
@@ -704,10 +704,10 @@ package core
 // The cascade removes exactly the results of the (match-checked) dependents search; an expired fact seen by get is purged through expire.
 //@ func (*IndexedState).deleteDependencies
 //@   assert[C08.ix_cascade_removes_search_matches] at "s.search(ctx, Map{KW_DeleteWith: []string{id}})": true
-//@   assert[C08.ix_cascade_removes_each_match]     at "s.rem(ctx, sr.Id)": true
+//@   assert[C08.ix_cascade_removes_each_match]     at "call:rem": true
 //@ func (*LinearState).deleteDependencies
 //@   assert[C08.lin_cascade_removes_search_matches] at "s.search(ctx, pattern, false)": true
-//@   assert[C08.lin_cascade_removes_each_match]     at "s.rem(ctx, sr.Id, false)": id != sr.Id
+//@   assert[C08.lin_cascade_removes_each_match]     at "call:rem": id != callarg(1)
 //@ func (*IndexedState).get
 //@   assert[C07+C08.ix_get_purges_through_expire] at "s.expire(ctx, id, fact, 0)": true
 //@ func (*LinearState).get
